@@ -63,41 +63,44 @@ type abortPath struct{ reason string }
 
 // Exec verifies one function against its contract.
 type Exec struct {
-	w             *World
-	fn            *ssa.Function
-	sel           string
-	con           *Contract
-	d             *Decls
-	obs           []*Obligation
-	entry         *State
-	ifacePreds    map[string]types.Type
-	assumptions   map[string]bool
-	unsupported   map[string]bool
-	paths         int
-	maxPaths      int
-	loopInfos     map[*ssa.Function]*LoopInfo
-	strLits       map[string]Term
-	siteOrd       map[ssa.Instruction]int
-	kindCount     map[string]int
-	coverCount    map[string]int
-	pendingFrames []callFrame
-	deferFrames   bool
-	ghostTypes    map[string]types.Type
-	obSeen        map[string]bool
-	callOrds      map[*ssa.Function]map[ssa.Instruction]int
-	returns       int
-	safetyOnly    bool
-	uncontracted  map[string]bool
-	specErrors    map[string]bool
-	entryBinds    map[string]TT
-	entryPC       int
-	atCallArgs    []Value
-	topFreeVars   []Value
-	linkSeen      map[string]bool
-	lastFrame     *Frame
-	lastRet       ssa.Instruction
-	stops         []*stopPoint
-	ipdoms        map[*ssa.Function]map[*ssa.BasicBlock]*ssa.BasicBlock
+	w              *World
+	fn             *ssa.Function
+	sel            string
+	con            *Contract
+	d              *Decls
+	obs            []*Obligation
+	entry          *State
+	ifacePreds     map[string]types.Type
+	assumptions    map[string]bool
+	unsupported    map[string]bool
+	paths          int
+	maxPaths       int
+	loopInfos      map[*ssa.Function]*LoopInfo
+	strLits        map[string]Term
+	siteOrd        map[ssa.Instruction]int
+	kindCount      map[string]int
+	coverCount     map[string]int
+	pendingFrames  []callFrame
+	deferFrames    bool
+	ghostTypes     map[string]types.Type
+	lastLoopMods   map[string]bool
+	lastLoopCells  map[*ssa.Alloc]bool
+	lastLoopGhosts map[string]bool
+	obSeen         map[string]bool
+	callOrds       map[*ssa.Function]map[ssa.Instruction]int
+	returns        int
+	safetyOnly     bool
+	uncontracted   map[string]bool
+	specErrors     map[string]bool
+	entryBinds     map[string]TT
+	entryPC        int
+	atCallArgs     []Value
+	topFreeVars    []Value
+	linkSeen       map[string]bool
+	lastFrame      *Frame
+	lastRet        ssa.Instruction
+	stops          []*stopPoint
+	ipdoms         map[*ssa.Function]map[*ssa.BasicBlock]*ssa.BasicBlock
 }
 
 type arrival struct {
@@ -649,6 +652,7 @@ func (ex *Exec) enterBlock(st *State, b *ssa.BasicBlock, from *ssa.BasicBlock) {
 				fr.env[phi] = v
 			}
 			ex.checkInvariants(st, fr.fn, l, "inv-pres")
+			ex.checkLoopWrites(st, b.Instrs[0], fr.inLoop[b])
 			if le := fr.inLoop[b]; le != nil && le.hasMeas {
 				m1 := ex.loopMeasure(st, fr.fn, l)
 				ex.oblige(st, "dec", "", b.Instrs[0], and(lt(m1, le.measure), ge(le.measure, intLit(0))), "loop measure decreases and is bounded below")
@@ -670,6 +674,7 @@ func (ex *Exec) enterBlock(st *State, b *ssa.BasicBlock, from *ssa.BasicBlock) {
 			ent.measure = ex.loopMeasure(st, fr.fn, l)
 			ent.hasMeas = true
 		}
+		ex.recordLoopHead(st, fr, ent)
 		fr.inLoop[b] = ent
 	} else {
 		vals := map[*ssa.Phi]Value{}
